@@ -185,6 +185,9 @@ namespace bloch::runtime {
         double r = dist(rng) * (norm0 + norm1);
         bool wasOne = norm0 == 0.0 || (norm1 > 0.0 && r < norm1);
         double inv = 1.0 / std::sqrt(wasOne ? norm1 : norm0);
+#ifdef BLOCH_VERIF
+        m_verifOutcomes.push_back({'r', q, wasOne ? 1 : 0});
+#endif
         for (size_t i = 0; i < m_state.size(); ++i) {
             if (i & bit)
                 continue;
